@@ -3,7 +3,7 @@ import os, sys, time
 from concurrent.futures import ThreadPoolExecutor
 from . import build, harness
 
-HARNESSES = ["h_uf", "h_orw"]
+HARNESSES = ["h_uf", "h_orw", "h_btree", "h_brie", "h_btdel", "h_eqrel", "h_fly"]
 TREES = ("san", "plain")
 
 
